@@ -111,7 +111,7 @@ def _shapes(tier, prop=None):
     if prop == "C10" and tier == "quick":
         return [q[1], q[6], q[7], big[1]]
     q = q + big
-    if tier != "thorough":
+    if tier != "thorough" or prop == "C10":
         return q
     return q + [
         dict(spec="triangle", modes=["min"]), dict(spec="chain3_cost", modes=["max"]), dict(spec="pair3"),
